@@ -21,10 +21,10 @@ def gen(rng, quick, forced=None):
             ops.append({"op": "mem.run", "target": target, "public": pub, "secrets": secrets})
     for ty in ("SigningKey", "ExpandedSecretKey", "StaticSecret", "EphemeralSecret", "ReusableSecret"):
         for _ in range(3):
-            ops.append({"op": "mem.drop", "ty": ty, "in": [le(rng.getrandbits(256) | 1)]})
+            ops.append({"op": "mem.drop", "ty": ty, "in": [le(rng.getrandbits(256) | 1)], "alts": [le(rng.getrandbits(256) | 1) for _ in range(2)]})
     for _ in range(3):
-        ops.append({"op": "mem.drop", "ty": "SharedSecret", "in": [le(rng.getrandbits(256)), le(9)]})
-        ops.append({"op": "mem.drop", "ty": "SharedSecret", "in": [le(rng.getrandbits(256)), le(rng.getrandbits(255))]})
+        ops.append({"op": "mem.drop", "ty": "SharedSecret", "in": [le(rng.getrandbits(256)), le(9)], "alts": [le(rng.getrandbits(256)) for _ in range(2)]})
+        ops.append({"op": "mem.drop", "ty": "SharedSecret", "in": [le(rng.getrandbits(256)), le(rng.getrandbits(255))], "alts": [le(rng.getrandbits(256)) for _ in range(2)]})
     for ty in ("Scalar", "EdwardsPoint", "CompressedEdwardsY", "RistrettoPoint", "CompressedRistretto", "MontgomeryPoint", "StaticSecret"):
         ops.append({"op": "mem.zeroize", "ty": ty, "in": [le(rng.getrandbits(255) | 1) for _ in range(3)]})
     return ops
